@@ -78,7 +78,7 @@ def rw_refstyle(rng, ap):
     return projects.render(ap2), None
 
 
-OPTS = ("gap", "onstart", "maxgap", "gaplen")
+OPTS = ("gap", "onstart", "onend", "maxgap", "gaplen")
 
 
 def decorate(rng, ap):
